@@ -11,6 +11,8 @@ import YashModel.Common.Proto
 import YashModel.Exec.Builtins
 import YashModel.Exec.Identify
 import YashModel.Exec.SearchDriver
+import YashModel.Exec.ReadEval
+import YashModel.Exec.Sexp
 namespace YashModel.Exec.Builtins
 open YashModel.Proto
 
@@ -99,7 +101,12 @@ def runDv (toks : List String) : String :=
     match decDivert a, decDivert b with
     | some x, some y =>
       let c := if x.le y then (if y.le x then "eq" else "lt") else "gt"
-      s!"cmp={c} max={showDivert (x.max y)}\t-"
+      let showR (r : BResult) : String := s!"{r.exitStatus}:{showRes r.divert}"
+      let ra : BResult := ⟨1, .break_ x⟩
+      let rb : BResult := ⟨0, .break_ y⟩
+      let plain : BResult := ⟨2, .continue_⟩
+      s!"cmp={c} max={showDivert (x.max y)} es={showOpt x.exitStatus}/{showOpt y.exitStatus} " ++
+        s!"rm={showR (ra.max plain)}/{showR (plain.max ra)}/{showR (ra.max rb)}\t-"
     | _, _ => "bad-case\t-"
   | _ => "bad-case\t-"
 
@@ -131,12 +138,39 @@ def runId (toks : List String) : String :=
     | _, _ => "bad-case\t-"
   | _ => "bad-case\t-"
 
+/-- `rel <initial $?> <line codes>`: the read-eval loop entered with that `$?` on a script of one line per code —
+    `c` comment only, `b` blank, a digit d `st d`, `p` `probe 1`, `e` `eval '# comment'`, `E` `eval ''`, `g` `eval 'st 6'`,
+    `d` `. /dot_c` (a file of comments and blank lines), `D` `. /dot_s` (comment, `st 7`, comment, blank).  `eval` and `.`
+    run the same loop on their text with `executed = false`. -/
+def relLines (codes : List Char) : List Line :=
+  let it (c : Cmd) : Item := .mk (.mk false [c]) []
+  let inner (ls : List Line) : Cmd := .st (readEvalLoop 20 { status := 1 } ls false).1.status
+  codes.map fun ch =>
+    if ch == 'c' || ch == 'b' then .cmds []
+    else if ch == 'p' then .cmds [it (.probe 1)]
+    else if ch == 'e' || ch == 'E' || ch == 'd' then .cmds [it (inner [.cmds []])]
+    else if ch == 'g' then .cmds [it (inner [.cmds [it (.st 6)]])]
+    else if ch == 'D' then .cmds [it (inner [.cmds [], .cmds [it (.st 7)], .cmds [], .cmds []])]
+    else .cmds [it (.st (ch.toNat - 48))]
+
+def runRel (toks : List String) : String :=
+  match toks with
+  | [init, codes] =>
+    match init.toNat? with
+    | some st0 =>
+      let codes := if codes = "." then [] else codes.toList
+      let (s, _) := readEvalLoop 1000 { status := st0 } (relLines codes) false
+      s!"trace={showTrace s.trace} st={s.status}\t-"
+    | none => "bad-case\t-"
+  | _ => "bad-case\t-"
+
 /-- the lines of the wave-3 families; `none` = not one of them -/
 def runLine? (line : String) : Option String :=
   match line.splitOn " " with
   | "bi" :: toks => some (runBi toks)
   | "dv" :: toks => some (runDv toks)
   | "id" :: toks => some (runId toks)
+  | "rel" :: toks => some (runRel toks)
   | _ => none
 
 end YashModel.Exec.Builtins
